@@ -246,6 +246,13 @@ func (c *Ctx) equal(x, y Value) *smt.Term {
 			r = st.And(r, c.equal(a[i], b[i]))
 		}
 		return r
+	case ScalarArr:
+		b := y.(ScalarArr)
+		r := st.True()
+		for i := range a.A.ids {
+			r = st.And(r, c.equal(a.A.Load(c, i), b.A.Load(c, i)))
+		}
+		return r
 	case DtypeV:
 		b, ok := y.(DtypeV)
 		if !ok {
